@@ -9,6 +9,8 @@
   exn_src_buffer / exn_src_len / exn_src_error : string — normalised token strings of the bodies of the eight C functions the
   machine models one Gallina function each (the `e->active = false;` statements in front of
   `return e->obj;` are taken out of exn_src_catch: they are the parameter above).
+* throw_records_obj_after_format : bool — is `e->obj = obj;` placed after print_to_with in exception_throw
+* try_keeps_obj : bool — exception_try does not touch e->obj
 * exn_kind_defs : list (string * string) — (NAME, ARG) of every `var NAME = CelloEmpty(ARG);` in
   src/Exception.c (the library's exception kinds)
 A macro/function that is not found emits None (= broken obligation)."""
@@ -80,6 +82,20 @@ def generate(repo, emit, src, func_body):
         else:
             emit('clear_active_on_catch', None)
         bodies['exn_src_catch'] = cb.replace('e -> active = false ; return e -> obj ;', 'return e -> obj ;')
+    tb = bodies.get('exn_src_throw')
+    if tb is None:
+        emit('throw_records_obj_after_format', None)
+    else:
+        io, ip = tb.find('e -> obj = obj ;'), tb.find('print_to_with (')
+        ok = io >= 0 and ip >= 0 and tb.count('e -> obj =') == 1 and tb.count('print_to_with (') == 1
+        emit('throw_records_obj_after_format', None if not ok else
+             'Definition throw_records_obj_after_format : bool := %s.   (* source: e->obj = obj; %s print_to_with(e->msg, ..) *)'
+             % (('true', 'after') if io > ip else ('false', 'before')))
+        bodies['exn_src_throw'] = tb.replace('e -> obj = obj ; ', '', 1)      # its position is the flag above
+    yb = bodies.get('exn_src_try')
+    emit('try_keeps_obj', None if yb is None else
+         'Definition try_keeps_obj : bool := %s.   (* source: exception_try %s e->obj *)'
+         % (('false', 'mentions') if re.search(r'-> obj\b', yb) else ('true', 'does not mention')))
     for coq, t in bodies.items():
         emit(coq, None if t is None else 'Definition %s : string := %s%%string.' % (coq, coq_string(t)))
 
